@@ -88,6 +88,19 @@ def havoc_like(I, name, v):
         sort = {"int": z3.IntSort(), "real": z3.RealSort(), "bool": z3.BoolSort()}[v.dtype]
         f = ctx.fresh_fun(name, *([z3.IntSort()] * len(shape)), sort)
         return SArr(tuple(shape), lambda *i: f(*[to_z3(x) for x in i]), v.dtype, v.kind)
+    if isinstance(v, AbstractObj):
+        # same object (identity), unknown internal state after an unknown number of iterations
+        v.gen += 1
+        for k_, val in list(v.attrs.items()):
+            if k_ in getattr(v, "stable_attrs", ("name", "greater_is_better")):
+                continue
+            v.attrs[k_] = ctx.fresh_int(f"{name}.{k_}") if is_intlike(val) else Opaque(f"{name}.{k_} (after earlier iterations)")
+        return v
+    if v.__class__.__name__ == "STable":
+        from .libpd import STable
+        n = ctx.fresh_int(name + ".nrows")
+        ctx.assume(n >= 0)
+        return STable(n, v.tag)
     if v is None:
         raise Undecided(f"havoc of {name} (None before the loop)")
     raise Undecided(f"havoc of {name}: {v!r}")
